@@ -361,3 +361,7 @@ prop(
 
 for _pid, _lst in GLUE.items():
     PROPS[_pid]["drift"] = _lst
+
+# the pool conservation histories also decide C01's "never double-counted": an iteration that is
+# both executed and reported dropped shows as started + dropped > requested
+PROPS["C01"]["stages"] = PROPS["C01"]["stages"] + [POOL_STAGE]
